@@ -334,20 +334,36 @@ func (c *fmtCmd) fmtTxtarFile(filename string) error {
 }
 
 func writeAtomically(b []byte, filename string) error {
+	info, err := os.Stat(filename)
+	if err != nil {
+		return err
+	}
 	tempFile, err := os.CreateTemp(filepath.Dir(filename), "evy")
 	if err != nil {
 		return fmt.Errorf("%s: %w", filename, err)
 	}
-	if _, err := tempFile.Write(b); err != nil {
-		return fmt.Errorf("%s: %w", filename, err)
-	}
-	if err := tempFile.Close(); err != nil {
+	if err := writeAndClose(tempFile, b, info.Mode().Perm()); err != nil {
+		os.Remove(tempFile.Name()) //nolint:errcheck // best-effort cleanup
 		return fmt.Errorf("%s: %w", filename, err)
 	}
 	if err := os.Rename(tempFile.Name(), filename); err != nil {
+		os.Remove(tempFile.Name()) //nolint:errcheck // best-effort cleanup
 		return fmt.Errorf("%s: %w", filename, err)
 	}
 	return nil
+}
+
+// writeAndClose writes b to f, gives f the permission bits perm and closes it.
+func writeAndClose(f *os.File, b []byte, perm os.FileMode) error {
+	if _, err := f.Write(b); err != nil {
+		f.Close() //nolint:errcheck // reporting the write error
+		return err
+	}
+	if err := f.Chmod(perm); err != nil {
+		f.Close() //nolint:errcheck // reporting the chmod error
+		return err
+	}
+	return f.Close()
 }
 
 func format(b []byte, checkOnly bool) (string, error) {
